@@ -6,7 +6,7 @@
 (*             calls      -- number of unify calls made                                *)
 (*             ty, rounds -- tyinst and pass counter of the final substitution loop    *)
 (*             bad        -- ghost: a successful unify call did not produce a unifier  *)
-(*   actions : Unify(A1, A2) for ALL pairs of types over {bool, fun, list} and the N   *)
+(*   actions : Unify(A1, A2) for ALL pairs of types over {bool, fun[, list]} and the N *)
 (*             variables (every order of calls, every sharing pattern);                *)
 (*             Finish (end of infer(): with FinalOccursCheck a depth-first occurs check *)
 (*             on the bindings rejects a cyclic binding); SubstPass (one pass of the   *)
@@ -21,11 +21,11 @@
 (*     UnifierOK         : every accepted call yields a unifier of its two arguments   *)
 (*                         that still respects all earlier bindings                    *)
 EXTENDS C08_InferAlgo
-CONSTANTS N, MaxCalls, FinalOccursCheck
+CONSTANTS N, MaxCalls, WithList, FinalOccursCheck
 
 IV == 0..(N - 1)
 Args == { Iv(k) : k \in IV } \cup {BoolT}
-Types == Args \cup { FunT(a, b) : a \in Args, b \in Args } \cup { ListT(a) : a \in Args }
+Types == Args \cup { FunT(a, b) : a \in Args, b \in Args } \cup (IF WithList THEN { ListT(a) : a \in Args } ELSE {})
 
 VARIABLES uf, reach, status, calls, ty, rounds, bad
 vars == <<uf, reach, status, calls, ty, rounds, bad>>
